@@ -393,7 +393,7 @@ func (h *c19h) apply(n *kpx.Node, m *c19model, o c19op, st *report.Stats) string
 	case "recvkeys":
 		k := 1 + o.A // number of identities released
 		var p int64
-		switch o.B {
+		switch o.B % 3 {
 		case 0:
 			p = 0
 		case 1:
@@ -402,6 +402,10 @@ func (h *c19h) apply(n *kpx.Node, m *c19model, o c19op, st *report.Stats) string
 			p = int64(len(m.Queue))
 		}
 		slot := uint64(200 + o.A)
+		if o.B >= 3 {
+			// a delayed message: for a slot before every slot this keyper is triggered for
+			slot = uint64(90 + o.A)
+		}
 		ids := []identitypreimage.IdentityPreimage{slotIdentity(slot)}
 		var txs []identitypreimage.IdentityPreimage
 		for i := 0; i < k-1; i++ {
@@ -490,7 +494,7 @@ type c19Replay struct {
 func c19() *report.Check {
 	return &report.Check{
 		Level: "model_checking",
-		Rule:  "(a) every (queue of 0..4/6 transactions with gas in {21000, limit/2, limit, limit+1, 1}, second eon's queue, pointer value in {0, inside, len, len+2}, age in {0, max, max+1, NULL, no row}, slot) written into minipg and triggerDecryption run by two keypers of the set; (b) BFS over {slot trigger + own shares, honest peer shares, received keys message (k in 1..3, pointer in {0,current,queue length}), new queued transaction, restart} on one real Gnosis node in lock-step with a reference pointer model, merged on the pointer/trigger/signature/share/key tables. Classes = selection sizes, pointer cases, kinds of history step",
+		Rule:  "(a) every (queue of 0..4/6 transactions with gas in {21000, limit/2, limit, limit+1, 1}, second eon's queue, pointer value in {0, inside, len, len+2}, age in {0, max, max+1, NULL, no row}, slot) written into minipg and triggerDecryption run by two keypers of the set; (b) BFS over {slot trigger + own shares, honest peer shares, received keys message (k in 1..3, pointer in {0,current,queue length}, for a later or an earlier slot than the last trigger), new queued transaction, restart} on one real Gnosis node in lock-step with a reference pointer model, merged on the pointer/trigger/signature/share/key tables. Classes = selection sizes, pointer cases, kinds of history step",
 		Assumptions: []string{
 			"A-ADDR: transaction identities never sort before the slot identity (non-zero identity prefixes), the code's own stated assumption",
 			"the repository's default gas configuration (encrypted gas limit 1 000 000, min gas 21 000, so the query's row limit never binds before the gas bound for the queue sizes explored)",
@@ -569,6 +573,8 @@ func c19() *report.Check {
 					alphabet = append(alphabet, c19op{"recvkeys", k, p})
 				}
 			}
+			// keys messages for an older slot than the one triggered last (delayed delivery)
+			alphabet = append(alphabet, c19op{"recvkeys", 1, 3}, c19op{"recvkeys", 2, 3}, c19op{"recvkeys", 1, 4}, c19op{"recvkeys", 2, 5})
 			var b *explore.BFS[c19node]
 			b = &explore.BFS[c19node]{
 				MaxDepth: depth, Deadline: c.Deadline,
